@@ -151,6 +151,8 @@ class Interp:
     def touch(self, s):
         for rec in self.dstack:
             rec['touched'].add(s)
+        # registration change marker (the model is already updated)
+        self.log.append(('reg', s, s in self.registered))
 
     def life_cb(self, obj, entity, world):
         """on_add of a World-owned handler (direct or relayed at enable)."""
@@ -200,7 +202,8 @@ class Interp:
                       f'live instance of its slot')
         if (s not in self.handlers and s not in self.eids
                 and s not in self.limbo and s not in self.limbo_unreg
-                and s not in self.held and s not in self.die_later):
+                and s not in self.held and s not in self.die_later
+                and not any(slot == s for slot, _ in self.cbstack)):
             self.fail('C10', 'called_after_gone', f'{lab}.{mname} called '
                       f'after the program dropped its last reference')
         token = None
@@ -224,6 +227,7 @@ class Interp:
         in_release = any(r['type'] == 'release' for r in self.dstack)
         self.activations.append({
             'key': key, 'slot': s, 'token': token, 'release': in_release,
+            'ev': info['ev'] if info else None,
             'queued_left': len(self.queue), 'listeners': len(self.registered)})
         if not self.enabled:
             allowed = self.inflight_ok
@@ -553,6 +557,13 @@ class Interp:
         self.check_dispatch(rec, aborted=e is not None)
         self.finish(e, 'dispatch')
 
+    def op_burst(self, op):
+        """n events of one name in a row (queue-length thresholds)."""
+        _, ev, n, base = op
+        for k in range(n):
+            self.op_dispatch(['dispatch', ev, base + k, 1])
+        self.probes['burst>=66'] += n >= 66
+
     def check_dispatch(self, rec, aborted):
         token, ev = rec['token'], rec['ev']
         got = Counter()
@@ -649,6 +660,7 @@ class Interp:
             self.probes['release_multi'] += 1
         complete = exc is None and self.enabled
         stable = rec['reg0'] - rec['touched']
+        self.delivery_time_check(rec, window, queue)
         if complete:
             for q in queue:
                 self.judge_token(q, stable, rec, full=True)
@@ -685,6 +697,46 @@ class Interp:
                 self.fail('C04', 'delivered_while_disabled',
                           f'token {q["token"]} was dispatched while '
                           f'disabled and delivered in the same release')
+
+    def delivery_time_check(self, rec, window, queue):
+        """'...to the handlers registered at delivery time': replay the
+        registration changes of the window; a queued token whose delivery
+        starts at some instant goes exactly to the handlers registered at
+        that instant (changes made while that very token is in flight are
+        lenient)."""
+        reg = set(rec['reg0'])
+        queued = {q['token']: q for q in queue}
+        span = {}                       # token -> [reg at start, first, last]
+        for k, e in enumerate(window):
+            if e[0] == 'reg':
+                if e[2]:
+                    reg.add(e[1])
+                else:
+                    reg.discard(e[1])
+            elif e[0] == 'cb' and e[3] in queued:
+                if e[3] not in span:
+                    span[e[3]] = [set(reg), k, k]
+                span[e[3]][2] = k
+        for token, (reg0, first, last) in span.items():
+            q = queued[token]
+            if token in self.half or not q.get('had_listener'):
+                continue
+            touched = {e[1] for e in window[first:last + 1] if e[0] == 'reg'}
+            got = Counter(e[1] for e in window[first:last + 1]
+                          if e[0] == 'cb' and e[3] == token)
+            for s2, n in got.items():
+                if s2 not in reg0 and s2 not in touched:
+                    self.fail('C04', 'stray_delivery', f'queued token '
+                              f'{token} was delivered to h{s2}, which was '
+                              f'not registered at delivery time')
+            for s2 in reg0 - touched:
+                if q['ev'] in self.emap(s2) and got[s2] == 0 and not any(
+                        e[0] in ('flag',) for e in window[first:last + 1]):
+                    self.fail('C04', 'lost', f'queued token {token} was not '
+                              f'delivered to h{s2}, registered at delivery '
+                              f'time')
+        if span and any(e[0] == 'reg' for e in window):
+            self.probes['registration_changed_during_release'] += 1
 
     def judge_token(self, q, stable, rec, full):
         token, ev = q['token'], q['ev']
@@ -883,12 +935,21 @@ def gen_script(prop, rng, cfg, state, act, acts):
 
 
 FAULT_KINDS = ['raise_Boom', 'raise_Quit', 'raise_SwitchWorld', 'disable',
-               'disable_enable', 'redispatch', 'enable']
+               'disable_enable', 'redispatch', 'enable', 'add_handler',
+               'remove_handler', 'swap_handlers']
 
 
 def fault_script(kind, rng, state):
     if kind.startswith('raise_'):
         return [['raise', kind[6:]]]
+    n = state.get('nslots', 2)
+    if kind == 'add_handler':
+        return [['add_handler', rng.randrange(n)]]
+    if kind == 'remove_handler':
+        return [['remove_handler', rng.randrange(n)]]
+    if kind == 'swap_handlers':
+        return [['remove_handler', rng.randrange(n)],
+                ['add_handler', rng.randrange(n)]]
     if kind == 'disable':
         return [['disable']]
     if kind == 'enable':
@@ -921,7 +982,7 @@ def generate(prop, run_seed, tier='quick', tolerate=frozenset()):
     n = min(150 if deep else 60,
             3 + int(crng.expovariate(1 / (24 if deep and crng.random() < .5
                                           else 12))))
-    state = {'token': 0, 'stoken': 1000}
+    state = {'token': 0, 'stoken': 1000, 'nslots': len(cfg['handlers'])}
     ops = []
     # start with some registrations so that dispatches reach someone
     for s in range(len(cfg['handlers'])):
@@ -930,6 +991,13 @@ def generate(prop, run_seed, tier='quick', tolerate=frozenset()):
                         and rng.random() < .5 else 'add_handler', s])
     while len(ops) < n:
         ops.append(gen_top_op(rng.choices(kinds, wts)[0], rng, cfg, state))
+    if prop == 'C04' and crng.random() < .12:
+        # a long backlog: thresholds of batching "optimisations"
+        ev = rng.choice(EVENTS[:3])
+        ops += [['disable'], ['burst', ev, crng.randint(66, 140), 5000]]
+        if rng.random() < .5:
+            ops.append(gen_top_op('dispatch', rng, cfg, state))
+        ops.append(['enable'])
     if prop == 'C04' and rng.random() < .7:
         ops.append(['enable'])
     base = {'format': 1, 'engine': 'dispatch', 'config': cfg, 'ops': ops,
@@ -986,9 +1054,20 @@ def generate(prop, run_seed, tier='quick', tolerate=frozenset()):
         pairs = rng.sample(pairs, min(3, len(pairs)))
     else:
         pairs = pairs[:60]
+    stoken = 2000
     for act, victim in pairs:
         sc = copy.deepcopy(base)
         sc['scripts'][act['key']] = [['kill', victim]]
+        # sometimes an earlier callback of the same dispatch re-dispatches
+        # the very event it is handling (re-entrancy around the drop)
+        if rng.random() < .3 and act.get('ev'):
+            same = [a for a in by_token.get(act['token'], [])
+                    if a['key'] != act['key']]
+            if same:
+                stoken += 1
+                other = rng.choice(same)
+                sc['scripts'][other['key']] = [
+                    ['dispatch', act['ev'], stoken, 1]]
         out.append(sc)
     return out
 
@@ -1062,7 +1141,8 @@ PROBES = {
             'release_aborted_by_raise', 'release_cut_by_nested_disable',
             'nested_enable_inside_release', 'raise_then_second_enable',
             'dispatch_during_release', 'unknown_name_queued',
-            'release_multi'],
+            'release_multi', 'registration_changed_during_release',
+            'burst>=66'],
     'C10': ['victim_ahead', 'victim_behind', 'drop_via.registry',
             'drop_via.remove_component', 'drop_via.delete_now',
             'drop_via.deferred', 'drop_via.clear',
